@@ -416,7 +416,7 @@ func ruleSeenBeforeCapture(r *core.Reporter) {
 		if !ok {
 			return
 		}
-		if ir.IsCallTo(c, pkgSeen+".seen") {
+		if isSeenHelper(p, c, "seen") {
 			writes = append(writes, in)
 			return
 		}
